@@ -160,6 +160,7 @@ type vNode struct {
 }
 
 type vSim struct {
+	hold    func(pb.Message) bool // messages that stay in flight for now (scenarios)
 	t        *testing.T
 	rng      *rand.Rand
 	ids      []uint64
@@ -1103,6 +1104,11 @@ func (s *vSim) randomRun(o simOpts) {
 		nInit = 3
 		voters = []uint64{1, 2, 3}
 	}
+	if o.scenarios && s.tid%32 == 23 {
+		scen = 8
+		nInit = 3
+		voters = []uint64{1, 2, 3}
+	}
 	if o.scenarios && s.tid%32 == 7 {
 		scen = 7
 		nInit = 3
@@ -1344,6 +1350,9 @@ func (s *vSim) settle(rounds int, cut func(pb.Message) bool, noApply map[uint64]
 				if _, ok := s.net[msgKey(m)]; !ok {
 					continue
 				}
+				if s.hold != nil && s.hold(m) {
+					continue // stays in flight
+				}
 				if cut != nil && cut(m) {
 					s.drop(m)
 					continue
@@ -1561,7 +1570,52 @@ func (s *vSim) scenario7(nextID uint64) uint64 {
 	return nextID + 1
 }
 
+// scenario8 (three voters): a leadership transfer whose TimeoutNow message is delayed beyond the
+// transfer time-out. Meanwhile the leader goes on and commits entries the target never sees. When
+// the stale TimeoutNow finally arrives the target campaigns at once (transfer flavour of
+// RequestVote); the others must still refuse it - its log lacks committed entries.
+func (s *vSim) scenario8() {
+	s.settle(40, nil, nil, nil, func() bool { return s.leaderNode() != nil && s.leaderNode().applied >= 4 })
+	l := s.leaderNode()
+	if l == nil {
+		return
+	}
+	var tgt *vNode
+	for _, n := range s.upNodes() {
+		if n.id != l.id {
+			tgt = n
+			break
+		}
+	}
+	if tgt == nil {
+		return
+	}
+	quiet := map[uint64]bool{tgt.id: true} // the target's own timer does not fire meanwhile
+	s.hold = func(m pb.Message) bool { return m.Type == pb.TimeoutNow && m.To == tgt.id }
+	toTgt := func(m pb.Message) bool { return m.To == tgt.id || m.From == tgt.id }
+	s.transfer(l, tgt.id)
+	// the transfer times out on the leader, then it commits entries with the third replica
+	for i := 0; i < 3*int(s.et); i++ {
+		if l.peer.raft.state != leader {
+			break
+		}
+		if i > int(s.et)+1 && i%2 == 0 {
+			s.nextVal++
+			s.propose(l, s.nextVal)
+		}
+		s.settle(1, toTgt, nil, quiet, nil)
+	}
+	// the delayed TimeoutNow arrives
+	s.hold = nil
+	s.settle(3, nil, nil, quiet, nil)
+	s.settle(2*int(s.et), nil, nil, nil, nil)
+}
+
 func (s *vSim) scenario(k int, nextID uint64) uint64 {
+	if k == 8 {
+		s.scenario8()
+		return nextID
+	}
 	if k == 7 {
 		return s.scenario7(nextID)
 	}
